@@ -29,6 +29,12 @@ func contractText(fc *FuncContract) string {
 		for _, c := range l.Invariants {
 			sb.WriteString(c.Src + "\n")
 		}
+		for _, c := range l.Entry {
+			sb.WriteString(c.Src + "\n")
+		}
+		for _, c := range l.Step {
+			sb.WriteString(c.Src + "\n")
+		}
 	}
 	return sb.String()
 }
@@ -368,6 +374,48 @@ func (e *enc) cellOf(name string) (ssa.Value, bool) {
 	return nil, false
 }
 
+// defSiteValue: go/ssa reports the zero value at the defining occurrence of a variable declared
+// with := (the DebugRef precedes the assignment). For such a DebugRef the value the variable
+// really holds is taken from its uses, provided they all agree (a variable assigned once).
+func (e *enc) defSiteValue(x *ssa.DebugRef) (ssa.Value, bool, bool) {
+	obj := x.Object()
+	id, isIdent := x.Expr.(*ast.Ident)
+	if _, isConst := x.X.(*ssa.Const); !isConst || obj == nil || !isIdent || id.Pos() != obj.Pos() || x.IsAddr {
+		return x.X, x.IsAddr, true
+	}
+	var found ssa.Value
+	if dbgOn {
+		fmt.Printf("DBG defsite %v obj=%v\n", x, obj)
+	}
+	for _, b := range e.f.Blocks {
+		for _, ins := range b.Instrs {
+			if d, ok := ins.(*ssa.DebugRef); ok && d != x && d.Object() == obj {
+				if di, ok := d.Expr.(*ast.Ident); ok && di.Pos() == obj.Pos() {
+					continue
+				}
+				if d.IsAddr || (found != nil && found != d.X) {
+					return x.X, x.IsAddr, true // assigned more than once: the declaration really holds the zero value
+				}
+				found = d.X
+			}
+		}
+	}
+	if found == nil {
+		return x.X, x.IsAddr, true
+	}
+	// the value must have been computed before the defining occurrence (x := <value>)
+	ins, ok := found.(ssa.Instruction)
+	if !ok {
+		return x.X, x.IsAddr, true
+	}
+	// (go/ssa emits the defining DebugRef either just before or just after the value; same block or a dominating one)
+	before := ins.Block() == x.Block() || ins.Block().Dominates(x.Block())
+	if !before {
+		return x.X, x.IsAddr, true
+	}
+	return found, false, true
+}
+
 func (e *enc) resolveLocal(name string, at *ssa.BasicBlock) (ssa.Value, bool, bool) {
 	if c, ok := e.cellOf(name); ok {
 		return c, true, true
@@ -380,7 +428,9 @@ func (e *enc) resolveLocal(name string, at *ssa.BasicBlock) (ssa.Value, bool, bo
 					continue // uses inside the header itself come after the phis; prefer phis
 				}
 				if id, ok := x.Expr.(*ast.Ident); ok && id.Name == name {
-					return x.X, x.IsAddr, true
+					if v, a, ok := e.defSiteValue(x); ok {
+						return v, a, true
+					}
 				}
 			case *ssa.Phi:
 				if x.Comment == name {
@@ -419,7 +469,9 @@ func (e *enc) resolveLocalAtEnd(name string, at *ssa.BasicBlock) (ssa.Value, boo
 		switch x := at.Instrs[i].(type) {
 		case *ssa.DebugRef:
 			if id, ok := x.Expr.(*ast.Ident); ok && id.Name == name {
-				return x.X, x.IsAddr, true
+				if v, a, ok := e.defSiteValue(x); ok {
+					return v, a, true
+				}
 			}
 		case *ssa.Phi:
 			if x.Comment == name {
@@ -442,7 +494,9 @@ func (e *enc) resolveLocalBefore(name string, at *ssa.BasicBlock, idx int) (ssa.
 		switch x := at.Instrs[i].(type) {
 		case *ssa.DebugRef:
 			if id, ok := x.Expr.(*ast.Ident); ok && id.Name == name {
-				return x.X, x.IsAddr, true
+				if v, a, ok := e.defSiteValue(x); ok {
+					return v, a, true
+				}
 			}
 		case *ssa.Phi:
 			if x.Comment == name {
@@ -547,6 +601,9 @@ func (e *enc) loopEnv(h *ssa.BasicBlock, edge *ssa.BasicBlock, st hstate) *cenv 
 	env.old = e.entry
 	env.lookup = func(name string) (cval, bool) {
 		v, isAddr, ok := e.resolveLocal(name, h)
+		if dbgOn {
+			fmt.Printf("DBG resolve %s at %d in %s -> %v %v %v\n", name, h.Index, e.f.String(), v, isAddr, ok)
+		}
 		if !ok {
 			return cval{}, false
 		}
@@ -758,6 +815,13 @@ func (e *enc) loopObligations() {
 						ne := e.loopEnv(h, latch, e.heapAt[latch])
 						base := ne.lookup
 						ne.lookup = func(name string) (cval, bool) {
+							// loop-carried names: the value flowing back into the header phi (an inner loop may
+							// carry a variable of the same name, e.g. rangeindex)
+							if v, _, ok := e.resolveLocal(name, h); ok {
+								if phi, isPhi := v.(*ssa.Phi); isPhi && phi.Block() == h {
+									return base(name)
+								}
+							}
 							// names that are not loop-carried are resolved at the end of the iteration
 							if v, isAddr, ok := e.resolveLocalAtEnd(name, latch); ok {
 								if phi, isPhi := v.(*ssa.Phi); !(isPhi && phi.Block() == h) && !isAddr {
@@ -918,6 +982,9 @@ func (e *enc) ifaceEnv(ii ifaceImpl, env *cenv) {
 // assumeIfaceRequires: a method reached through an interface may rely on the interface contract's
 // preconditions (every invoke site proves them).
 func (e *enc) assumeIfaceRequires() {
+	if dbgOn {
+		fmt.Printf("DBG ifaceContracts of %s: %d\n", e.key, len(e.ifaceContracts()))
+	}
 	for _, ii := range e.ifaceContracts() {
 		if len(ii.fc.Requires) == 0 {
 			continue
@@ -978,3 +1045,5 @@ func (e *enc) callKeyOf(cc *ssa.CallCommon) string {
 	}
 	return ""
 }
+
+var dbgOn = len(dbgEnv) > 0
